@@ -5,7 +5,7 @@ import random
 
 import numpy as np
 
-from vlib import clock, graphs as G, gens, oracles
+from vlib import alias, clock, graphs as G, gens, oracles
 from vlib.base import import_dsw, derive_seed, jdump
 from vlib.coding import monitored, encode_budget, is_strand, int_str_trap
 from vlib.proxies import CountingAccessor, AccessBudgetExceeded
@@ -152,6 +152,12 @@ def check_graph(ctx, case):
             return
     else:
         mask = G.hex_to_mask(k, case["mask"], dtype=bool)
+    if rng.random() < 0.3 and k <= 6:
+        # G3 noise: a caller edits predecessor / successor lists it obtained earlier, then generates the graph
+        for v in (range(4 ** k) if k <= 3 else [rng.randrange(4 ** k) for _ in range(8)]):
+            alias.caller_edit(dsw.obtain_formers(v, k), rng)
+            alias.caller_edit(dsw.obtain_latters(v, k), rng)
+        ctx.cls("generation preceded by edited predecessor/successor lists")
     gen = monitored(dsw.connect_coding_graph, 400 * 4 ** k * (4 ** k + 8) + 20000, k, mask, t)
     if gen.kind != "ok":
         ctx.cls("generation|" + ("ValueError" if gen.kind == "raised" and isinstance(gen.exc, ValueError) else gen.kind))
@@ -191,12 +197,21 @@ def _encode_one(ctx, dsw, case, acc, k, t, V, has1, complete, start, bits, fast,
     value = oracles.bits_value(bits)
     sub = dict(k=k, arcs=G.acc_to_hex(acc), t=t, start=start, bits=bits, fast=fast, dtype=dtype)
     nontrivial = has1 or (t >= 2 and L >= 2)
+    verbose = (hash((start, L, fast)) % 20 == 0)     # progress output on for about 5 % of the calls
+    if verbose:
+        ctx.cls("encode with progress output")
     read_budget = 4 * L * V + 8  # cut for non-termination; the property's bound itself is checked on the strand length
     proxy = CountingAccessor(acc, read_budget=read_budget)
     del TRACE[:]
     with clock.budget(encode_budget(L, V)) as b, int_str_trap():
         try:
-            out = dsw.encode(np.array(bits, dtype=dtype), proxy, start, is_faster=fast)
+            if verbose:
+                import contextlib
+                import io
+                with contextlib.redirect_stdout(io.StringIO()):
+                    out = dsw.encode(np.array(bits, dtype=dtype), proxy, start, is_faster=fast, verbose=True)
+            else:
+                out = dsw.encode(np.array(bits, dtype=dtype), proxy, start, is_faster=fast)
             kind = "ok"
         except AccessBudgetExceeded:
             kind, out = "lookups", None
@@ -294,7 +309,8 @@ def floors(agg, tier):
     for name, need in (("t1|normal", 1000), ("t1|fast", 300), ("t2|normal", 1000), ("t2|fast", 300), ("t3|normal", 50),
                        ("t4|normal", 20), ("normal|met out-degree 1", 500), ("normal|met out-degree 3", 200),
                        ("fast|carried L+1", 50), ("family|chain", 100), ("family|localbiofilter", 10), ("msg|zeros", 100),
-                       ("family|deep-sweeps", 20), ("msg|long", 2), ("msg|twin", 200)):
+                       ("family|deep-sweeps", 20), ("msg|long", 2), ("msg|twin", 200), ("encode with progress output", 500),
+                       ("generation preceded by edited predecessor/successor lists", 100)):
         if c.get(name, 0) < need:
             out.append("%s observed %d < %d" % (name, c.get(name, 0), need))
     if agg["obs_max"].get("longest out-degree-1 run", 0) < 3:
